@@ -295,11 +295,20 @@ def check_super(t1, t2):
     union = sorted(set(l1) | set(l2))
     d1, d2 = G.displayed_triples(t1), G.displayed_triples(t2)
     want = sorted(sorted(map(sorted, cl)) for _, cl, disp in trees_on(union) if d1 <= disp and d2 <= disp)
+    def mirrored(t):
+        return tuple(mirrored(c) for c in reversed(t)) if isinstance(t, tuple) else t
+
     try:
         one = supertree([ete(t1), ete(t2)])
         allt = all_supertrees([ete(t1), ete(t2)])
+        # the same two trees with the children of every node of the second one written in the opposite order
+        one_m = supertree([ete(t1), ete(mirrored(t2))])
+        all_m = all_supertrees([ete(t1), ete(mirrored(t2))])
     except Exception as exc:
         return f"raised {type(exc).__name__}: {exc}", len(want)
+    if sorted(sorted(map(sorted, ete_clades(t))) for t in all_m) != want or (one_m is None) != (not want):
+        return (f"all_supertrees({G.tree_newick(t1)}, mirror image of {G.tree_newick(t2)}) gives {len(all_m)} trees / supertree "
+                f"{'None' if one_m is None else 'a tree'}, expected {len(want)}"), len(want)
     bad = ill_formed(allt) or (ill_formed([one]) if one is not None else None)
     if bad:
         return f"all_supertrees / supertree({G.tree_newick(t1)}, {G.tree_newick(t2)}): {bad}", len(want)
